@@ -348,3 +348,25 @@ pub fn w24_user_repr_on_clike_enum() {}
 /// enum OverTag { A, B }
 /// ```
 pub fn t24_user_repr_on_clike_enum() {}
+
+/// C02 (FlatWrap): the wrapper validates - alignment included - the pointer it is given once and maps the bytes again, unchecked, at every
+/// `Deref`. A pointer type that stores its bytes inline (stavec's array-backed `GenericVec<[MaybeUninit<u8>; N], L>`) moves them when the
+/// wrapper is moved, so it must not be accepted as the pointer of a `FlatWrap` (finding 41: misaligned `&FlatVec<u32, u32>` from safe code).
+/// ```compile_fail,E0277
+/// use core::mem::MaybeUninit;
+/// use flatty::{FlatVec, FlatWrap};
+/// use stavec::GenericVec;
+/// type Inline = GenericVec<[MaybeUninit<u8>; 12], u32>;
+/// let bytes = Inline::default();
+/// let _ = FlatWrap::<FlatVec<u32, u32>, Inline>::from_wrapped_bytes(bytes);
+/// ```
+pub fn w25_flatwrap_inline_storage() {}
+/// ```no_run
+/// use core::mem::MaybeUninit;
+/// use flatty::{FlatVec, FlatWrap};
+/// use stavec::GenericVec;
+/// type Inline = GenericVec<[MaybeUninit<u8>; 12], u32>;
+/// let mut bytes = Inline::default();
+/// let _ = FlatWrap::<FlatVec<u32, u32>, &mut Inline>::from_wrapped_bytes(&mut bytes);
+/// ```
+pub fn t25_flatwrap_inline_storage() {}
